@@ -47,30 +47,38 @@ def tool_env(extra=None):
         e.update(extra)
     return e
 
-# A change that makes a tool hang on every input would otherwise cost (cases x timeout) of wall-clock: after 3 consecutive hangs in one
-# worker process the limit drops to HANG_SHORT seconds (tiny images take milliseconds), after 10 the tool is no longer started and the case is
-# reported as a hang at once.  Any run that finishes normally resets the streak.  Only shortens runs that would be reported as hangs anyway.
+# A change that makes a tool hang (on every input or on a class of inputs) would otherwise cost (cases x timeout) of wall-clock, and a loop that
+# allocates would exhaust memory.  Per worker process: after 3 consecutive or 5 hangs in total the limit of ordinary runs drops to HANG_SHORT
+# seconds (tiny images take milliseconds); after 10 consecutive or 40 in total the tool is no longer started and the case is reported as a hang at
+# once (every 10th case is still tried).  This only shortens runs whose check already fails.  Non-sanitizer binaries run under an address-space limit.
 _hang_streak = 0
+_hang_total = 0
 HANG_SHORT = 4
 def run(argv, timeout=20, env=None, stdin=None, cwd=None, max_output=64 << 20):
-    global _hang_streak
-    if _hang_streak >= 10 and _hang_streak % 10 != 0:            # every 10th case is still tried, so a streak can end
-        _hang_streak += 1
-        return 'TIMEOUT', '[not started: %d consecutive runs in this worker did not finish within their limit]' % (_hang_streak - 1)
-    if _hang_streak >= 3 and timeout <= 60:                      # explicit long limits (re-runs before calling something a hang) are kept
+    global _hang_streak, _hang_total
+    if (_hang_streak >= 10 or _hang_total >= 40) and (_hang_total % 10) != 0:
+        _hang_streak += 1; _hang_total += 1
+        return 'TIMEOUT', '[not started: %d runs in this worker did not finish within their limit (%d in a row)]' % (_hang_total - 1, _hang_streak - 1)
+    if (_hang_streak >= 3 or _hang_total >= 5) and timeout <= 60:      # explicit long limits (re-runs before calling something a hang) are kept
         timeout = min(timeout, HANG_SHORT)
     rc, out = _run_raw(argv, timeout, env, stdin, cwd, max_output)
-    if rc == 'TIMEOUT': _hang_streak += 1
+    if rc == 'TIMEOUT': _hang_streak += 1; _hang_total += 1
     else: _hang_streak = 0
     return rc, out
+
+def _limit_as():
+    import resource
+    try: resource.setrlimit(resource.RLIMIT_AS, (12 << 30, 12 << 30))
+    except Exception: pass
 
 def _run_raw(argv, timeout=20, env=None, stdin=None, cwd=None, max_output=64 << 20):
     """Run a tool; returns (rc, stdout+stderr text). rc negative = signal, 'TIMEOUT' = timed out (or flooded its output: more than
     max_output bytes, which is treated like non-termination).  Only the first 256 KiB and the last 64 KiB of the output are kept."""
     import select
     try:
+        san = '/plain/' not in argv[0]          # only the plain tool builds get the limit: sanitizer runtimes reserve terabytes of address space
         pr = subprocess.Popen(argv, stdout=subprocess.PIPE, stderr=subprocess.STDOUT, env=env or tool_env(),
-                              stdin=subprocess.DEVNULL if stdin is None else subprocess.PIPE, cwd=cwd)
+                              stdin=subprocess.DEVNULL if stdin is None else subprocess.PIPE, cwd=cwd, preexec_fn=None if san else _limit_as)
     except OSError as e:
         return 127, 'cannot execute %s: %s' % (argv[0], e)
     if stdin is not None:
